@@ -1,4 +1,5 @@
 import OFCore.Lemmas.Period
+import OFCore.Lemmas.TextForms
 /-!
 # C04 — period arithmetic agrees with the calendar
 
@@ -477,5 +478,435 @@ theorem C04_named_periods (p : Period) (hv : p.start.Valid) :
     rw [addMonths_first _ _ rfl]
     simp only [Period.mk.injEq, Date.mk.injEq, true_and, and_true]
     omega
+
+/-! ## first-of / last-of, `Period.date`, transitivity of the sub-period tiling -/
+
+theorem ord_year_bounds (c : Date) (hv : c.Valid) :
+    ord ⟨c.y, 1, 1⟩ ≤ ord c ∧ ord c ≤ ord ⟨c.y, 12, 31⟩ := by
+  have hy := hv.1
+  have v1 : (Date.mk c.y 1 1).Valid := valid_first c.y 1 hy (by omega) (by omega)
+  have v2 : (Date.mk c.y 12 31).Valid := ⟨hy, by simp only; omega, by simp only; omega, by simp only; omega, by simp [dim]⟩
+  obtain ⟨_, hm1, hm12, hd1, hdd⟩ := hv
+  have hd31 := dim_le c.y c.m
+  constructor
+  · by_cases h : c.m = 1 ∧ c.d = 1
+    · have : c = ⟨c.y, 1, 1⟩ := Date.eq_mk c _ _ _ rfl h.1 h.2
+      rw [← this]; omega
+    · exact Int.le_of_lt (ord_lt_of_lex _ _ v1 ⟨hy, hm1, hm12, hd1, hdd⟩ (Or.inr ⟨rfl, by simp only; omega⟩))
+  · by_cases h : c.m = 12 ∧ c.d = 31
+    · have : c = ⟨c.y, 12, 31⟩ := Date.eq_mk c _ _ _ rfl h.1 h.2
+      rw [← this]; omega
+    · exact Int.le_of_lt (ord_lt_of_lex _ _ ⟨hy, hm1, hm12, hd1, hdd⟩ v2 (Or.inr ⟨rfl, by simp only; omega⟩))
+
+/-- `offset("first-of", unit)` lands on the first day of the year / month / ISO week that contains the
+    date: an aligned start, not after the date, the date lies inside the one-unit period beginning
+    there, and asking again changes nothing (idempotent).  For `day` and `weekday` the code answers
+    `None` (second statement). -/
+theorem C04_first_of (c : Date) (hv : c.Valid) (u : DUnit) (s : Date)
+    (h : instOffset c .firstOf u = .ok (some s)) :
+    (u = .year ∨ u = .month ∨ u = .week) ∧ s.Valid ∧ AlignedTo s u ∧
+    ord s ≤ ord c ∧ ord c ≤ (Period.mk u s 1).hi ∧
+    (s.y ≤ 9999 → instOffset s .firstOf u = .ok (some s)) := by
+  have hy := hv.1
+  obtain ⟨_, hm1, hm12, hd1, hdd⟩ := hv
+  have hv : c.Valid := ⟨hy, hm1, hm12, hd1, hdd⟩
+  cases u <;> simp only [instOffset, reduceCtorEq, if_false] at h
+  · cases h
+  · -- week
+    split at h
+    · rename_i hok
+      cases hc : chk (startOfWeek c) with
+      | error e => rw [hc] at h; cases h
+      | ok d =>
+        rw [hc] at h
+        simp only [Except.map] at h
+        injection h with h; injection h with h; subst h
+        obtain ⟨rfl, hy1, hy2⟩ := chk_ok hc
+        have hw := weekday0_range (ord c)
+        have hpos : 1 ≤ ord c - weekday0 (ord c) := by
+          by_cases hh : 1 ≤ ord c - weekday0 (ord c)
+          · exact hh
+          · have := ofOrd_nonpos (ord c - weekday0 (ord c)) (by omega)
+            unfold startOfWeek at hy1; omega
+        have ho := ord_startOfWeek c hv hpos
+        have hsv : (startOfWeek c).Valid := ofOrd_valid _ hpos
+        have hmon := weekday0_startOfWeek c hv hpos
+        refine ⟨Or.inr (Or.inr rfl), hsv, hmon, by omega, ?_, ?_⟩
+        · simp only [Period.hi]; omega
+        · intro _
+          have hidem : startOfWeek (startOfWeek c) = startOfWeek c := by
+            show ofOrd (ord (startOfWeek c) - weekday0 (ord (startOfWeek c))) = _
+            rw [hmon, Int.sub_zero]; exact ofOrd_ord _ hsv
+          simp only [instOffset, reduceCtorEq, if_false]
+          rw [if_pos ((dateOk_iff _).2 ⟨hsv, hy2⟩), hidem, hc]; rfl
+    · cases h
+  · cases h
+  · -- month
+    injection h with h; injection h with h; subst h
+    have hsv : (Date.mk c.y c.m 1).Valid := valid_first c.y c.m hy hm1 hm12
+    refine ⟨Or.inr (Or.inl rfl), hsv, rfl, ?_, ?_, fun _ => rfl⟩
+    · rw [ord_month_day c]; omega
+    · simp only [Period.hi]
+      rw [ord_addMonths_one _ hsv rfl, ord_month_day c]; simp only; omega
+  · -- year
+    injection h with h; injection h with h; subst h
+    have hsv : (Date.mk c.y 1 1).Valid := valid_first c.y 1 hy (by omega) (by omega)
+    have hb := ord_year_bounds c hv
+    refine ⟨Or.inl rfl, hsv, ⟨rfl, rfl⟩, hb.1, ?_, fun _ => rfl⟩
+    rw [hi_year_jan]
+    have e : c.y + 1 - 1 = c.y := by omega
+    rw [e]; exact hb.2
+  · cases h
+
+example : instOffset ⟨2021, 1, 3⟩ .firstOf .week = .ok (some ⟨2020, 12, 28⟩) ∧
+    instOffset ⟨2021, 1, 3⟩ .firstOf .day = .ok none := by decide +kernel
+
+/-- `offset("last-of", unit)` lands on the last day of the year / month / ISO week that contains the
+    date: the last day of the one-unit period that begins at the `first-of` date; it is not before the
+    date, and asking again changes nothing. -/
+theorem C04_last_of (c : Date) (hv : c.Valid) (u : DUnit) (s e : Date)
+    (hs : instOffset c .firstOf u = .ok (some s)) (he : instOffset c .lastOf u = .ok (some e)) :
+    e.Valid ∧ ord e = (Period.mk u s 1).hi ∧ ord c ≤ ord e ∧
+    instOffset e .lastOf u = .ok (some e) := by
+  have hf := C04_first_of c hv u s hs
+  have hy := hv.1
+  obtain ⟨_, hm1, hm12, hd1, hdd⟩ := hv
+  have hv : c.Valid := ⟨hy, hm1, hm12, hd1, hdd⟩
+  cases u <;> simp only [instOffset, reduceCtorEq, if_false] at he hs
+  · cases he
+  · -- week
+    split at he
+    · rename_i hok
+      cases hc : chk (endOfWeek c) with
+      | error e => rw [hc] at he; cases he
+      | ok d =>
+        rw [hc] at he
+        simp only [Except.map] at he
+        injection he with he; injection he with he; subst he
+        obtain ⟨rfl, hy1, hy2⟩ := chk_ok hc
+        rw [if_pos hok] at hs
+        cases hc2 : chk (startOfWeek c) with
+        | error e => rw [hc2] at hs; cases hs
+        | ok d2 =>
+          rw [hc2] at hs
+          simp only [Except.map] at hs
+          injection hs with hs; injection hs with hs; subst hs
+          obtain ⟨rfl, hz1, _⟩ := chk_ok hc2
+          have hw := weekday0_range (ord c)
+          have hpos : 1 ≤ ord c - weekday0 (ord c) := by
+            by_cases hh : 1 ≤ ord c - weekday0 (ord c)
+            · exact hh
+            · have := ofOrd_nonpos (ord c - weekday0 (ord c)) (by omega)
+              unfold startOfWeek at hz1; omega
+          have ho := ord_startOfWeek c hv hpos
+          have hoe := ord_endOfWeek c hpos
+          have hev : (endOfWeek c).Valid := ofOrd_valid _ (by omega)
+          refine ⟨hev, ?_, by omega, ?_⟩
+          · simp only [Period.hi]; omega
+          · have hwd : weekday0 (ord (endOfWeek c)) = 6 := by
+              rw [hoe]; unfold weekday0; omega
+            have hidem : endOfWeek (endOfWeek c) = endOfWeek c := by
+              show ofOrd (ord (endOfWeek c) - weekday0 (ord (endOfWeek c)) + 6) = _
+              rw [hwd]
+              have : ord (endOfWeek c) - 6 + 6 = ord (endOfWeek c) := by omega
+              rw [this]; exact ofOrd_ord _ hev
+            simp only [instOffset, reduceCtorEq, if_false]
+            rw [if_pos ((dateOk_iff _).2 ⟨hev, hy2⟩), hidem, hc]; rfl
+    · cases he
+  · cases he
+  · -- month
+    injection hs with hs; injection hs with hs; subst hs
+    split at he
+    · rename_i hok
+      injection he with he; injection he with he; subst he
+      have hsv := valid_first c.y c.m hy hm1 hm12
+      have hev : (endOfMonth c).Valid := ⟨hy, hm1, hm12, by have := dim_ge c.y c.m; simp only [endOfMonth]; omega, by simp only [endOfMonth]; omega⟩
+      have hoe := ord_endOfMonth c hv
+      refine ⟨hev, ?_, ?_, ?_⟩
+      · simp only [Period.hi]
+        rw [ord_addMonths_one _ hsv rfl, hoe]
+      · rw [hoe, ord_month_day c]; omega
+      · simp only [instOffset, reduceCtorEq, if_false]
+        rw [if_pos ((dateOk_iff _).2 ⟨hev, ((dateOk_iff _).1 hok).2⟩)]; rfl
+    · cases he
+  · -- year
+    injection hs with hs; injection hs with hs; subst hs
+    injection he with he; injection he with he; subst he
+    have hb := ord_year_bounds c hv
+    refine ⟨⟨hy, by simp only; omega, by simp only; omega, by simp only; omega, by simp [dim]⟩, ?_, hb.2, rfl⟩
+    rw [hi_year_jan]
+    have e : c.y + 1 - 1 = c.y := by omega
+    rw [e]
+  · cases he
+
+example : instOffset ⟨2020, 2, 10⟩ .lastOf .month = .ok (some ⟨2020, 2, 29⟩) ∧
+    instOffset ⟨2020, 12, 30⟩ .lastOf .week = .ok (some ⟨2021, 1, 3⟩) := by decide +kernel
+
+/-- `Period.date` is the start date, defined for periods of size one only. -/
+theorem C04_period_date (p : Period) :
+    (p.size ≠ 1 → ∃ e, p.date = .error e) ∧
+    (p.size = 1 → p.start.Valid → p.start.y ≤ 9999 → p.date = .ok p.start) ∧
+    (∀ d, p.date = .ok d → d = p.start ∧ p.size = 1 ∧ d.Valid) := by
+  refine ⟨?_, ?_, ?_⟩
+  · intro h; unfold Period.date; rw [if_pos h]; exact ⟨_, rfl⟩
+  · intro h hv hy; unfold Period.date
+    rw [if_neg (by omega), if_pos ((dateOk_iff _).2 ⟨hv, hy⟩)]
+  · intro d h; unfold Period.date at h
+    split at h
+    · cases h
+    · rename_i hs
+      split at h
+      · rename_i hok
+        injection h with h
+        exact ⟨h.symm, by omega, h ▸ ((dateOk_iff _).1 hok).1⟩
+      · cases h
+
+example : (Period.mk .year ⟨2021, 10, 1⟩ 3).date = .error "value" ∧ (Period.mk .month ⟨2021, 10, 1⟩ 1).date = .ok ⟨2021, 10, 1⟩ := by
+  decide +kernel
+
+/-- the month pieces of a period are one-month periods with real start dates -/
+theorem subperiods_month_pieces (p : Period) (hv : p.start.Valid) (ms : List Period)
+    (h : p.subperiods .month = .ok ms) : ∀ m ∈ ms, m.unit = .month ∧ m.size = 1 ∧ m.start.Valid := by
+  intro m hm
+  unfold Period.subperiods at h
+  split at h
+  · cases h
+  · simp only at h
+    rw [(C04_named_periods p hv).2.1] at h
+    simp only [bind, Except.bind] at h
+    cases hsz : p.sizeInMonths with
+    | error e => rw [hsz] at h; cases h
+    | ok n =>
+      rw [hsz] at h
+      simp only at h
+      obtain ⟨hbv, i, hi⟩ := offsetsFrom_pieces _ _ _ _ h m hm
+      rw [hi]
+      exact ⟨rfl, rfl, shiftDate_valid _ hbv i (Int.natCast_nonneg i) .month⟩
+
+/-- the day pieces of a period are one-day periods, each named by its ordinal -/
+theorem subperiods_day_pieces (p : Period) (hv : p.start.Valid) (ds : List Period)
+    (h : p.subperiods .day = .ok ds) : ∀ q ∈ ds, IsDayPiece q := by
+  intro q hq
+  unfold Period.subperiods at h
+  split at h
+  · cases h
+  · simp only at h
+    cases hsz : p.sizeInDays with
+    | error e => rw [hsz] at h; cases h
+    | ok n =>
+      rw [hsz] at h
+      simp only [bind, Except.bind] at h
+      obtain ⟨_, i, hi⟩ := offsetsFrom_pieces _ _ _ _ h q hq
+      rw [hi]
+      have h1 := ord_pos _ hv
+      have hi0 : (0 : Int) ≤ (i : Int) := Int.natCast_nonneg i
+      refine ⟨rfl, rfl, ?_⟩
+      simp only [Period.firstDay, shiftDate, Period.lo, addDays]
+      rw [ord_ofOrd _ (by omega)]
+
+/-- Sub-periods of sub-periods are the sub-periods: splitting a year (or several months) into months
+    and every month into days gives consecutive, non-overlapping one-day periods whose union is exactly
+    the period — and they are, in order, the very days `get_subperiods(DAY)` returns for the period
+    itself. -/
+theorem C04_subperiods_transitive (p : Period) (hp : p.WF) (hu : p.unit = .year ∨ p.unit = .month)
+    (hal : p.start.d = 1) (ms : List Period) (hm : p.subperiods .month = .ok ms)
+    (dss : List (List Period)) (hd : Piecewise (fun m ds => m.subperiods .day = .ok ds) ms dss) :
+    Tiles dss.flatten p.lo p.hi ∧ (∀ q ∈ dss.flatten, q.unit = .day ∧ q.size = 1) ∧
+    (∀ ds, p.subperiods .day = .ok ds → ds = dss.flatten) := by
+  have hv := hp.2.1
+  have hfam : DUnit.month.family = p.unit.family ∧ DUnit.month.rank ≤ p.unit.rank ∧
+      DUnit.day.family = p.unit.family ∧ DUnit.day.rank ≤ p.unit.rank := by
+    rcases hu with hu | hu <;> rw [hu] <;> decide
+  obtain ⟨hTm, _⟩ := C04_subperiods_tile p .month hp hfam.1 hfam.2.1 hal ms hm
+  have hpieces := subperiods_month_pieces p hv ms hm
+  have hwf : ∀ m ∈ ms, m.WF := fun m hmm => by
+    obtain ⟨h1, h2, h3⟩ := hpieces m hmm
+    exact ⟨by rw [h1]; decide, h3, by omega⟩
+  have hT : Piecewise (fun m ds => Tiles ds m.lo m.hi) ms dss :=
+    Piecewise.imp ms dss (fun m hmm ds hds => by
+      have h1 := (hpieces m hmm).1
+      exact (C04_subperiods_tile m .day (hwf m hmm) (by rw [h1]; rfl) (by rw [h1]; decide) trivial ds hds).1) hd
+  have hAll : ∀ q ∈ dss.flatten, IsDayPiece q :=
+    Piecewise.flatten_all ms dss (fun m hmm ds hds => subperiods_day_pieces m (hwf m hmm).2.1 ds hds) hd
+  have hTiles := tiles_flatten ms dss p.lo p.hi hTm hT
+  refine ⟨hTiles, fun q hq => ⟨(hAll q hq).1, (hAll q hq).2.1⟩, ?_⟩
+  intro ds hds
+  obtain ⟨hTd, _⟩ := C04_subperiods_tile p .day hp hfam.2.2.1 hfam.2.2.2 trivial ds hds
+  exact tiles_days_unique ds dss.flatten p.lo p.hi hTd hTiles (subperiods_day_pieces p hv ds hds) hAll
+
+example : ∃ ms dss, (Period.mk .month ⟨2020, 2, 1⟩ 2).subperiods .month = .ok ms ∧
+    Piecewise (fun m ds => m.subperiods .day = .ok ds) ms dss ∧ dss.flatten.length = 60 := by
+  refine ⟨[⟨.month, ⟨2020, 2, 1⟩, 1⟩, ⟨.month, ⟨2020, 3, 1⟩, 1⟩], [_, _], by decide +kernel, ⟨rfl, rfl, trivial⟩, ?_⟩
+  decide +kernel
+
+/-- `key_period_size` is a faithful name of the pair (unit weight, size): two periods get the same key
+    exactly when their units weigh the same and their sizes are equal. -/
+theorem C04_key_period_size_faithful (p q : Period) :
+    keyPeriodSize p = keyPeriodSize q ↔ unitWeight p.unit = unitWeight q.unit ∧ p.size = q.size := by
+  unfold keyPeriodSize
+  constructor
+  · intro h
+    simp only [List.append_assoc, List.cons_append, List.nil_append] at h
+    obtain ⟨h1, h2⟩ := append_sep_inj '_' _ _ _ _ (intText_no_us _) (intText_no_us _) h
+    exact ⟨intText_inj _ _ h1, intText_inj _ _ h2⟩
+  · intro ⟨h1, h2⟩; rw [h1, h2]
+
+
+example : keyPeriodSize ⟨.year, ⟨2021, 9, 14⟩, 3⟩ = "300_3".toList := by decide +kernel
+
+/-- the key is a text: compared as text, ten days sort before two days (the decimal size is not padded) -/
+example : keyPeriodSize ⟨.day, ⟨2021, 9, 14⟩, 10⟩ < keyPeriodSize ⟨.day, ⟨2021, 9, 14⟩, 2⟩ := by decide +kernel
+
+/-- Every dated period, whatever its unit, splits into its days: `get_subperiods(DAY)` of a year, month,
+    week, weekday or day period of any start date yields consecutive one-day periods whose union is
+    exactly the period (days tile weeks as well as months: no alignment is needed).  The same holds for
+    one-`weekday` pieces of month, week, day and weekday periods (for a year period the code counts whole
+    weeks only, see the example below). -/
+theorem C04_subperiods_days_any_unit (p : Period) (u : DUnit) (hp : p.WF)
+    (hu : u = .day ∨ (u = .weekday ∧ p.unit ≠ .year))
+    (qs : List Period) (h : p.subperiods u = .ok qs) :
+    Tiles qs p.lo p.hi ∧ ∀ q ∈ qs, q.unit = u ∧ q.size = 1 := by
+  obtain ⟨hne, hv, hsz⟩ := hp
+  have hp : p.WF := ⟨hne, hv, hsz⟩
+  have h1 := ord_pos _ hv
+  have hlo : p.lo = ord p.start := rfl
+  have hll := lo_le_hi p hp
+  unfold Period.subperiods at h
+  split at h
+  · cases h
+  · rcases hu with hu | ⟨hu, hny⟩ <;> subst hu <;> simp only at h
+    · cases hw : p.sizeInDays with
+      | error e => rw [hw] at h; cases h
+      | ok n =>
+        rw [hw] at h; simp only [bind, Except.bind] at h
+        have hn : n = p.hi - p.lo + 1 := (C04_days_count p hp n).2 hw
+        have := offsetsFrom_tiles p.start hv .day (by decide) (by intro h; rcases h with h | h <;> cases h) n (by omega) qs h
+        simp only [shiftDate] at this
+        rw [ord_addDays _ _ (by omega)] at this
+        rw [hlo]; rw [hlo] at hn
+        have e : ord p.start + n - 1 = p.hi := by omega
+        rw [e] at this; exact this
+    · cases hw : p.sizeInWeekdays with
+      | error e => rw [hw] at h; cases h
+      | ok n =>
+        rw [hw] at h; simp only [bind, Except.bind] at h
+        have hn : n = p.hi - p.lo + 1 := by
+          have hs := C04_size_in_smaller_unit p hp
+          cases hpu : p.unit
+          · rw [(hs.2.2.2.1 hpu).1] at hw; injection hw with hw; have := (hs.2.2.2.1 hpu).2; omega
+          · rw [(hs.2.2.1 hpu).2.1] at hw; injection hw with hw; have := (hs.2.2.1 hpu).2.2; omega
+          · simp only [Period.sizeInWeekdays, hpu] at hw; injection hw with hw
+            simp only [Period.hi, Period.lo, hpu]; omega
+          · simp only [Period.sizeInWeekdays, hpu] at hw
+            exact spanDays_spec p hp (Or.inr hpu) n hw
+          · exact absurd hpu hny
+          · exact absurd hpu hne
+        have := offsetsFrom_tiles p.start hv .weekday (by decide) (by intro h; rcases h with h | h <;> cases h) n (by omega) qs h
+        simp only [shiftDate] at this
+        rw [ord_addDays _ _ (by omega)] at this
+        rw [hlo]; rw [hlo] at hn
+        have e : ord p.start + n - 1 = p.hi := by omega
+        rw [e] at this; exact this
+
+example : ∃ qs, (Period.mk .week ⟨2020, 12, 28⟩ 2).subperiods .day = .ok qs ∧ qs.length = 14 := by
+  refine ⟨_, rfl, ?_⟩; decide +kernel
+
+/-- the exception: the `weekday` pieces of a year period are counted in whole weeks (`size_in_weeks * 7`),
+    364 for the 365 days of 2019 -/
+example : (Period.mk .year ⟨2019, 1, 1⟩ 1).sizeInWeekdays = .ok 364 ∧ (Period.mk .year ⟨2019, 1, 1⟩ 1).days = .ok 365 := by
+  decide +kernel
+
+/-- `size_in_weeks` of a year or month period counts the WHOLE weeks in its days (pendulum's
+    `in_weeks`): the day count divided by seven, rounded down — 52 for every calendar year.  (This is why
+    the `weekday` pieces of a year period, `size_in_weeks * 7` of them, stop short of its last day or two.) -/
+theorem C04_size_in_weeks_whole (p : Period) (hp : p.WF) (hu : p.unit = .year ∨ p.unit = .month) (k : Int)
+    (h : p.sizeInWeeks = .ok k) : k = (p.hi - p.lo + 1) / 7 ∧ 7 * k ≤ p.hi - p.lo + 1 ∧ p.hi - p.lo + 1 < 7 * k + 7 := by
+  have hll := lo_le_hi p hp
+  have key : ∀ c : Date, p.hi = ord c - 1 → inWeeks p.start c = (p.hi - p.lo + 1) / 7 := by
+    intro c hc
+    have hlo : p.lo = ord p.start := rfl
+    unfold inWeeks
+    simp only
+    have : ¬ (ord c - ord p.start < 0) := by omega
+    rw [if_neg this]
+    congr 1; omega
+  have hk : k = (p.hi - p.lo + 1) / 7 := by
+    unfold Period.sizeInWeeks at h
+    rcases hu with hu | hu <;> rw [hu] at h <;> simp only at h
+    · split at h
+      · cases hc : chk (addMonths p.start (12 * p.size)) with
+        | error e => rw [hc] at h; cases h
+        | ok c =>
+          rw [hc] at h; simp only [bind, Except.bind] at h
+          injection h with h
+          obtain ⟨rfl, _, _⟩ := chk_ok hc
+          rw [← h]; exact key _ (by simp only [Period.hi, hu])
+      · cases h
+    · split at h
+      · cases hc : chk (addMonths p.start p.size) with
+        | error e => rw [hc] at h; cases h
+        | ok c =>
+          rw [hc] at h; simp only [bind, Except.bind] at h
+          injection h with h
+          obtain ⟨rfl, _, _⟩ := chk_ok hc
+          rw [← h]; exact key _ (by simp only [Period.hi, hu])
+      · cases h
+  refine ⟨hk, ?_, ?_⟩ <;> omega
+
+example : (Period.mk .year ⟨2019, 1, 1⟩ 1).sizeInWeeks = .ok 52 ∧ (Period.mk .month ⟨2019, 2, 1⟩ 1).sizeInWeeks = .ok 4 := by
+  decide +kernel
+
+/-- Shifting an instant by `k` days (weekdays) or weeks moves it by exactly `k` or `7k` days; by `k` months or
+    years it lands in the month `k` (12`k`) months later, on the same day of the month unless that month is
+    shorter, in which case on its last day. -/
+theorem C04_instant_shift (c : Date) (k : Int) (u : DUnit) (d : Date)
+    (h : instOffset c (.n k) u = .ok (some d)) :
+    c.Valid ∧ d.Valid ∧
+    ((u = .day ∨ u = .weekday) → ord d = ord c + k) ∧
+    (u = .week → ord d = ord c + 7 * k) ∧
+    (u = .month → d = addMonths c k ∧ d.y * 12 + (d.m - 1) = c.y * 12 + (c.m - 1) + k ∧ d.d = min c.d (dim d.y d.m)) ∧
+    (u = .year → d = addMonths c (12 * k) ∧ d.y = c.y + k ∧ d.m = c.m ∧ d.d = min c.d (dim d.y d.m)) := by
+  obtain ⟨hv, d', hd', hy1, _, hd⟩ := instOffset_n_ok _ _ _ _ h
+  injection hd' with hd'; subst hd'
+  have hdays : ∀ n : Int, d = addDays c n → d.Valid ∧ ord d = ord c + n := by
+    intro n hdn
+    have hpos : 1 ≤ ord c + n := by
+      by_cases hh : 1 ≤ ord c + n
+      · exact hh
+      · have := ofOrd_nonpos (ord c + n) (by omega)
+        rw [hdn] at hy1; unfold addDays at hy1; omega
+    rw [hdn]; exact ⟨addDays_valid _ _ hpos, ord_addDays _ _ hpos⟩
+  have hmonths : ∀ n : Int, d = addMonths c n → d.Valid := by
+    intro n hdn; rw [hdn]; exact addMonths_valid c n hv (by rw [← hdn]; exact hy1)
+  have hdv : d.Valid := by
+    cases u <;> simp only [shiftDate] at hd
+    · exact (hdays _ hd).1
+    · exact (hdays _ hd).1
+    · exact (hdays _ hd).1
+    · exact hmonths _ hd
+    · exact hmonths _ hd
+    · exact (hdays _ hd).1
+  refine ⟨hv, hdv, ?_, ?_, ?_, ?_⟩
+  · intro hu
+    have : d = addDays c k := by rcases hu with hu | hu <;> rw [hu] at hd <;> exact hd
+    exact (hdays _ this).2
+  · intro hu; rw [hu] at hd
+    exact (hdays _ hd).2
+  · intro hu; rw [hu] at hd
+    have hd : d = addMonths c k := hd
+    refine ⟨hd, ?_, ?_⟩
+    · rw [hd]; simp only [addMonths]; omega
+    · rw [hd]; simp only [addMonths]
+  · intro hu; rw [hu] at hd
+    have hd : d = addMonths c (12 * k) := hd
+    have hm := hv.2.1; have hm2 := hv.2.2.1
+    refine ⟨hd, ?_, ?_, ?_⟩
+    · rw [hd]; simp only [addMonths]; omega
+    · rw [hd]; simp only [addMonths]; omega
+    · rw [hd]; simp only [addMonths]
+
+example : instOffset ⟨2020, 1, 31⟩ (.n 1) .month = .ok (some ⟨2020, 2, 29⟩) ∧
+    instOffset ⟨2020, 2, 29⟩ (.n 1) .year = .ok (some ⟨2021, 2, 28⟩) ∧
+    instOffset ⟨2020, 12, 28⟩ (.n 1) .week = .ok (some ⟨2021, 1, 4⟩) := by decide +kernel
 
 end OFCore
